@@ -7026,3 +7026,49 @@ mod tests {
         );
     }
 }
+
+/// Verification-only raw mutators (fault injection). Compiled only with `verif-hooks`.
+#[cfg(feature = "verif-hooks")]
+#[doc(hidden)]
+impl<T, U, V, const D: usize> Tds<T, U, V, D>
+where
+    U: DataType,
+    V: DataType,
+{
+    /// Remove a cell from storage and from the UUID map WITHOUT unwiring neighbours or incident cells.
+    pub fn verif_remove_cell_raw(&mut self, key: CellKey) -> bool {
+        match self.cells.remove(key) {
+            Some(cell) => {
+                self.uuid_to_cell_key.remove(&cell.uuid());
+                true
+            }
+            None => false,
+        }
+    }
+
+    /// Insert a cell as-is (no validation, no wiring); registers its UUID.
+    pub fn verif_insert_cell_raw(&mut self, cell: Cell<T, U, V, D>) -> CellKey {
+        let uuid = cell.uuid();
+        let key = self.cells.insert(cell);
+        self.uuid_to_cell_key.insert(uuid, key);
+        key
+    }
+
+    /// Insert a vertex as-is (no validation); registers its UUID (overwriting an existing entry).
+    pub fn verif_insert_vertex_raw(&mut self, vertex: Vertex<T, U, D>) -> VertexKey {
+        let uuid = vertex.uuid();
+        let key = self.vertices.insert(vertex);
+        self.uuid_to_vertex_key.insert(uuid, key);
+        key
+    }
+
+    /// Drop one entry of the vertex UUID -> key map.
+    pub fn verif_unmap_vertex_uuid(&mut self, uuid: &Uuid) -> bool {
+        self.uuid_to_vertex_key.remove(uuid).is_some()
+    }
+
+    /// Drop one entry of the cell UUID -> key map.
+    pub fn verif_unmap_cell_uuid(&mut self, uuid: &Uuid) -> bool {
+        self.uuid_to_cell_key.remove(uuid).is_some()
+    }
+}
